@@ -20,6 +20,7 @@ NSDECL = 'xmlns:text="%s"' % TEXT
 
 # ----------------------------------------------------------------------------- Coq printing
 _extra = {}
+NCODES = 400     # character constants k0..k399 defined in the shard header (one identifier per character keeps the terms small)
 
 
 def tok(c):
@@ -27,9 +28,10 @@ def tok(c):
     if c == '\t': return 'Tb'
     if c == '\n': return 'Nl'
     o = ord(c)
-    if o < 128: return 'Ch %d' % o
+    if o < 128: return 'k%d' % o
     if c not in _extra: _extra[c] = 128 + len(_extra)
-    return 'Ch %d' % _extra[c]
+    if _extra[c] >= NCODES: raise OutOfDomain('too many distinct characters')
+    return 'k%d' % _extra[c]
 
 
 def cs(s):
@@ -80,11 +82,27 @@ def coq_heads(heads):
     return '[' + ';'.join('mkH %s %s' % (coq_Z(lv), coq_hitems(c)) for lv, c in heads) + ']'
 
 
-def coq_doc(a, titles):
-    return '(mkD %s [%s])' % (coq_heads(a['heads']), ';'.join(coq_toc(t, titles) for t in a['tocs']))
+class Share:
+    """let-binding of repeated sub-terms (pre / post / post2 mostly coincide): same term, shorter text"""
+    def __init__(self): self.names, self.binds = {}, []
+
+    def __call__(self, term):
+        if len(term) < 12: return term
+        if term not in self.names:
+            self.names[term] = 'v%d' % len(self.names)
+            self.binds.append((self.names[term], term))
+        return self.names[term]
+
+    def wrap(self, body):
+        return '(' + ''.join('let %s := %s in ' % b for b in self.binds) + body + ')'
 
 
-HEADER = 'Require Import WS WSnfproof Toc TocChk. From Coq Require Import List ZArith Arith Bool. Import ListNotations. Open Scope Z_scope.'
+def coq_doc(a, titles, sh):
+    return '(mkD %s %s)' % (sh(coq_heads(a['heads'])), sh('[' + ';'.join(sh(coq_toc(t, titles)) for t in a['tocs']) + ']'))
+
+
+HEADER = ('Require Import WS WSnfproof Toc TocChk. From Coq Require Import List ZArith Arith Bool. Import ListNotations. Open Scope Z_scope.\n'
+          + ' '.join('Definition k%d := Ch %d.' % (i, i) for i in range(NCODES)))
 
 LAYER = {1: "selection: the number of entries differs from the number of headings with level <= outline level",
          2: "number: an entry does not start with the hierarchical number of its heading",
@@ -356,13 +374,14 @@ def drive(odfdo, spec, doc_cache=None):
 
 
 def step_term(kind, p, titles):
+    sh = Share()
     if kind == 'fill':
-        return 'CFill %s %s %s %d%%nat %s %s' % (coq_doc(p['pre'], titles), coq_doc(p['post'], titles), coq_doc(p['post2'], titles),
-                                               p['k'], 'true' if p['styled'] else 'false', 'true' if p['same'] else 'false')
+        return sh.wrap('CFill %s %s %s %d%%nat %s %s' % (coq_doc(p['pre'], titles, sh), coq_doc(p['post'], titles, sh), coq_doc(p['post2'], titles, sh),
+                                                       p['k'], 'true' if p['styled'] else 'false', 'true' if p['same'] else 'false'))
     if kind == 'tool':
         es = 'None' if p['entries'] is None else 'Some [%s]' % ';'.join('(%s, %s)' % (coq_Z(lv), coq_items(its)) for lv, its in p['entries'])
-        return 'CTool %s %s %s (%s)' % (coq_heads(p['heads']), coq_Z(p['depth']), cs(p['out']), es)
-    return 'CErr 11%nat'
+        return '(CTool %s %s %s (%s))' % (coq_heads(p['heads']), coq_Z(p['depth']), cs(p['out']), es)
+    return '(CErr 11%nat)'
 
 
 def work(chunk):
